@@ -24,7 +24,10 @@ Paths == << Path("$", <<Wild>>, <<>>),
             Path("$", <<Multi(<<Wild, Wild>>)>>, <<>>),
             Path("$", <<Wild, Wild>>, <<>>),
             Path("$", <<Rec, Nm(kx)>>, <<>>),
-            Path("$", <<Flt(Cmp(">", Cur(<<Nm(kx)>>), Lit(Num(0)))), Wild>>, <<>>) >>
+            Path("$", <<Flt(Cmp(">", Cur(<<Nm(kx)>>), Lit(Num(0)))), Wild>>, <<>>),
+            Path("$", <<Flt(Exist(Root(<<>>)))>>, <<>>),                      \* member-independent: whole match
+            Path("$", <<Flt(NotP(Cur(<<Nm(<<113, 113>>)>>)))>>, <<>>),
+            Path("$", <<Flt(Cmp("==", Lit(Num(1000)), Lit(Num(1000)))), Wild>>, <<>>) >>
 
 VARIABLES ks, pi      \* ks: increasing sequence of pool indices; pi: chosen path (0 = none yet)
 vars == <<ks, pi>>
